@@ -58,6 +58,8 @@ def view_stage(work, res, tier, prefixes, replay=None):
                 (models[i], r["states"], r["transitions"], r["wall_s"], n))
             out = []
             for v in variants[i]:
+                if v == 100 and not any(p in ("C01_", "C07_") for p in prefixes):
+                    continue      # the overlap mode serves the clauses of C01 and C07
                 tr = replay_edges(work, binp, edges, v, per, sample=(1.0 if v == 0 else (0.34 if tier == "quick" else (1.0 if v == 100 else 0.2))))
                 tr["judged"] = judge_chunked(work, tr["trace"], per)
                 log("judged %d lines of %s (variant %s)" % (tr["judged"]["lines"], gens[i], tr["variant"]))
